@@ -102,19 +102,32 @@ func (f *Read) wrapRead(s *slip.Scope, r io.Reader, eofp bool, eofv slip.Object,
 			buf  []byte
 			pos  int
 			prev int
+			// partial is set when what has been read so far stops inside a form.
+			partial any
 		)
 		b := []byte{0}
 		for {
-			if n, err := r.Read(b); err != nil || n != 1 {
-				if err != nil && !errors.Is(err, io.EOF) {
-					panic(err)
+			n, err := r.Read(b)
+			if err != nil && !errors.Is(err, io.EOF) {
+				panic(err)
+			}
+			if n != 1 {
+				if err == nil {
+					continue // nothing available yet is not the end of the stream
 				}
 				break
 			}
+			// A byte can arrive together with io.EOF.
 			buf = append(buf, b[0])
-			code, pos = readOne(s, buf)
+			code, pos, partial = readOne(s, buf)
 			if 0 < len(code) {
 				if prev == pos {
+					// The byte just read ended a token and is not part of
+					// it. Hand it back if the stream allows that so the
+					// next read starts with it.
+					if pr, ok := r.(interface{ PushRune(r rune) }); ok && pos < len(buf) {
+						pr.PushRune(rune(buf[len(buf)-1]))
+					}
 					break
 				}
 				// Some types are only complete with a terminating
@@ -127,9 +140,16 @@ func (f *Read) wrapRead(s *slip.Scope, r io.Reader, eofp bool, eofv slip.Object,
 				}
 			}
 			prev = pos
+			if err != nil {
+				break
+			}
 		}
 		if 0 < len(code) {
 			return code[0]
+		}
+		if partial != nil {
+			// The stream ended inside a form.
+			panic(partial)
 		}
 	}
 	if eofp {
@@ -138,13 +158,15 @@ func (f *Read) wrapRead(s *slip.Scope, r io.Reader, eofp bool, eofv slip.Object,
 	return eofv
 }
 
-func readOne(s *slip.Scope, buf []byte) (code slip.Code, pos int) {
+func readOne(s *slip.Scope, buf []byte) (code slip.Code, pos int, partial any) {
 	defer func() {
 		if rec := recover(); rec != nil {
 			if _, ok := rec.(*slip.PartialPanic); !ok {
 				panic(rec)
 			}
+			partial = rec
 		}
 	}()
-	return slip.ReadOne(buf, s)
+	code, pos = slip.ReadOne(buf, s)
+	return
 }
